@@ -147,7 +147,7 @@ func forEachV2BaseTemporal(f func(i int, b [6]int, hasT bool, t [3]int)) {
 func TestC04(t *testing.T) {
 	c := begin(t, "C04")
 	defer c.end()
-	c.rec.F.Rule = "complete enumeration of the 729 x (100 + group absent) = 73,629 canonical v2 vectors, each decoded by every decoder whose level includes its groups (base vectors by all three, temporal vectors by the temporal and environmental decoder; constructor and nil receiver alternate); rapid adds random vectors with an environmental group appended for the environmental decoder. Non-trivial = non-zero impact; enumerated (vector, decoder) pairs are distinct by construction, rapid cases by hash."
+	c.rec.F.Rule = "complete enumeration of the 729 x (100 + group absent) = 73,629 canonical v2 vectors, each decoded by every decoder whose level includes its groups (base vectors by all three, temporal vectors by the temporal and environmental decoder; constructor and nil receiver alternate); rapid adds random vectors with an environmental group appended for the environmental decoder. Non-trivial = non-zero impact; enumerated (vector, decoder) pairs are distinct by construction, rapid cases by hash. A quarter of the constructor-made decoders have every observer of every view called once before their single Decode (queried_before_decode)."
 	c.rec.F.Assumptions = []string{"reference model: exact rational Impact/Exploitability (unrounded), f(Impact), round-to-1-decimal as a set (both neighbours on an exact half), temporal = rounding of each admissible base tenth times E x RL x RC", "known finding KF-1 (known_findings.json): deviations on its 22 listed base vectors are excused only when the library value equals the listed tenth (base) or its exact propagation (temporal)"}
 	nviol := 0
 	var evals, nt int64
